@@ -67,6 +67,23 @@ def run_one(args):
                 if got != want and len(fails) < 4:
                     fails.append({"input": {"entries in each components directory": list(subset), "suffix": suffix}, "clause": "exactly the public files, each once, with the import path Python would use",
                                   "expected": want, "observed": got})
+            # a configured component directory whose own NAME contains glob meta-characters (they are legal in file names)
+            if subset and len(subset) % 7 == 0:
+                odd = os.path.join(base, "comp[1]", "x*y")
+                shutil.rmtree(os.path.join(base, "comp[1]"), ignore_errors=True)
+                for rel in subset:
+                    pth = os.path.join(odd, rel)
+                    os.makedirs(os.path.dirname(pth), exist_ok=True)
+                    open(pth, "w").close()
+                from django.test import override_settings as _ov
+                with _ov(COMPONENTS={"autodiscover": False, "dirs": [odd], "app_dirs": []}):
+                    n += 1
+                    got = sorted(os.path.relpath(str(e.filepath), odd) for e in get_component_files(".py") if str(e.filepath).startswith(base + os.sep))
+                    want = sorted(rel for rel in subset if rel.endswith(".py") and public(rel))
+                    if got != want and len(fails) < 4:
+                        fails.append({"input": {"entries": list(subset), "COMPONENTS.dirs": ["comp[1]/x*y"], "suffix": ".py"},
+                                      "clause": "a component directory whose name contains [ ] * is searched like any other", "expected": want, "observed": got})
+                shutil.rmtree(os.path.join(base, "comp[1]"), ignore_errors=True)
             # two configured component directories, one nested in the other (directly, and below an underscore directory): every file
             # that is public relative to SOME configured directory, each once
             from django.test import override_settings
